@@ -139,6 +139,53 @@ def impl_merge(case):
     return out, fail, 'tracks=%d' % case[0]
 
 
+def shared_objects(out, rng):
+    """the same message OBJECT at several places of the input (MidiTrack([m]) * 3, one frozen message shared by tracks): every occurrence is an
+    event of its own at its own absolute tick (implementation against the statement; the model identifies events by position, not by object)"""
+    import mido
+    from mido.frozen import freeze_message
+    n = 0
+    for trial in range(200 if out.tier == 'quick' else 20000):
+        pool = [mido.Message('note_on', note=k, time=rng.choice([0, 1, 5, 96])) for k in range(rng.randrange(1, 4))]
+        pool += [mido.MetaMessage('set_tempo', tempo=300000 + k, time=rng.choice([0, 3, 96])) for k in range(rng.randrange(0, 2))]
+        if rng.random() < 0.5:
+            pool = [freeze_message(m) for m in pool]
+        tracks = []
+        for _ in range(rng.randrange(1, 4)):
+            if rng.random() < 0.4:
+                tr = mido.MidiTrack([rng.choice(pool)]) * rng.randrange(1, 5)
+            else:
+                tr = mido.MidiTrack(rng.choice(pool) for _ in range(rng.randrange(0, 6)))
+            tracks.append(tr)
+        want, dur = [], 0
+        for ti, tr in enumerate(tracks):
+            now = 0
+            for j, m in enumerate(tr):
+                now += m.time
+                want.append((now, ti, j, repr(m.copy(time=0))))
+            dur = max(dur, now)
+        want.sort(key=lambda e: e[:3])
+        n += 1
+        try:
+            for label, merged in (('merge_tracks', mido.merge_tracks(tracks)), ('merge_tracks(skip_checks=True)', mido.merge_tracks(tracks, skip_checks=True)),
+                                  ('MidiFile.merged_track', mido.MidiFile(type=1, tracks=tracks).merged_track)):
+                now, got = 0, []
+                for m in merged:
+                    now += m.time
+                    if m.type != 'end_of_track':
+                        got.append((now, repr(m.copy(time=0))))
+                if got != [(a, r) for a, _, _, r in want] or now != dur:
+                    out.failures.append(('shared-objects', '%s of tracks in which one message object occurs several times: events %r (duration %r), expected %r (duration %r)'
+                                         % (label, got[:10], now, [(a, r) for a, _, _, r in want][:10], dur),
+                                         {'component': 'shared-objects', 'tracks': [[(m.time, repr(m), id(m) % 1000) for m in tr] for tr in tracks]}))
+                    break
+        except Exception as e:  # noqa: BLE001
+            out.failures.append(('shared-objects-raises:' + type(e).__name__, 'merging tracks in which one message object occurs several times raised %r' % (e,),
+                                 {'component': 'shared-objects', 'tracks': [[(m.time, repr(m)) for m in tr] for tr in tracks]}))
+    out.evaluations += n
+    out.components['one message object at several places (implementation against the statement)'] = {'cases': n}
+
+
 def job(j):
     tag, comp, cases = j
     return tag, core.eval_cases(comp, cases, impl_merge)
@@ -164,6 +211,7 @@ def run(out):
     cases += [random_case(rng) for _ in range(n)]
     for tag, rec in core.pmap(job, chunk_jobs(cases, 'merge', COMP_MERGE)):
         core.merge_into(out, rec, tag)
+    shared_objects(out, rng)
     out.rule = ('merge_tracks on %d generated track lists: 0-6 tracks (incl. none and empty), 0-40 events, deltas from {0,0,0,0,1,2,480,2**28} so that '
                 'ties abound, end_of_track missing / repeated / mid-track; every message identifiable by (track, index); a third of the cases hold only frozen messages, a third every other one; result compared message '
                 'by message with the model; inputs snapshotted before and after; skip_checks=True and MidiFile.merged_track compared; the times of one result are then edited and the tracks merged again (results must be independent of each other and of the inputs). Oracle: '
